@@ -387,7 +387,11 @@ def gen_arg(cx, ir_t, c_t, base, top=True):
         if dia(cm, "name") != "c":
             raise Unsupported("slices of string views are only handled for the C header")
         inner_c = view_shape(cm, c_t)
-        elem_c = view_shape(cm, inner_c)
+        try:
+            elem_c = view_shape(cm, inner_c)
+        except Mismatch:
+            raise Mismatch("%s: a slice of string views (%s) needs a view whose elements are {data, len} views, but the declaration's element type is %r"
+                           % (base, ir_t.rust(), inner_c))
         EM = mtype(cm, elem_c, cx.names)
         IT = mtype(cm, inner_c, cx.names)
         a.setup.append("let mut %s_a0: [%s; 2] = kani::any(); let mut %s_a1: [%s; 2] = kani::any();" % (v, EM, v, EM))
@@ -945,8 +949,13 @@ def generate_all(mod, cm, steps=3):
         except Mismatch as e:
             tags = ["C01"]
             msg = str(e)
-            if "unit arm" in msg or "Option" in msg or "is_ok" in msg or "result record" in msg:
+            mentions_opt = any(_mentions(t, (Opt, Res)) for _, t in m.params if not isinstance(t, (Write, Callback))) or _mentions(m.ret, (Opt, Res))
+            if mentions_opt or "unit arm" in msg or "Option" in msg or "is_ok" in msg or "result record" in msg:
                 tags.append("C10")
+            if any(_mentions(t, (EnumT,)) for _, t in m.params if not isinstance(t, (Write, Callback))) or _mentions(m.ret, (EnumT,)):
+                tags.append("C11")
+            if any(isinstance(t, Write) for _, t in m.params):
+                tags.append("C12")
             static.append((m.abi_name(), msg, tags))
     for ed in mod.enums.values():
         try:
